@@ -1,18 +1,32 @@
 """C20 — the command-line compiler.
 
  (a) Lean obligations (FfcxProofs.C20) over the hand-written models and the tables regenerated from
-     /repo (Generated/Options.lean, Generated/Templates.lean).
+     /repo (Generated/Options.lean, Generated/Templates.lean, Generated/TemplatePieces.lean — the
+     template strings of both backends split into literal characters and holes).
  (b) Correspondence on seeded random inputs: options.get_options vs `getOptions` (temporary
      XDG_CONFIG_HOME and cwd, `_load_options` cache cleared), main.parser.parse_args + the priority
      dict vs `priorityOptions`, the options `main` really compiles with vs `mainOptions`,
      main.sanitise_filename vs `sanitiseFilename` (observed through a `main` whose compile/write
-     steps are stubbed), formatting.format_code vs `formatCode`.
- (c) Search on the real `ffcx` entry point: generated .ufl files -> ffcx.main.main -> <stem>.h/.c;
-     stand-alone compile against ufcx.h, `nm` symbols ⊇ header externs, aliases present, kernels
-     bitwise equal to the JIT path, every option-source combination takes effect with the documented
-     precedence; thorough: numba output parses/compiles as Python.
+     steps are stubbed), formatting.format_code vs `formatCodeE` (rectangular, ragged and empty
+     inputs: IndexError modelled), `str.format_map` vs `Tpl.inst` on random fillings of every
+     template, `common.template_keys` vs the holes of the regenerated tables.
+     Templates on REAL runs (probe objects × both backends, and every CLI run of (c)): every
+     instantiation of a template string is recorded (extract_templates.Recorder); the model's
+     instance for the recorded filling must equal the emitted text byte by byte, the filling must
+     satisfy the obligations of `decl_defined_templates`, declaration and implementation of a block
+     must be filled consistently, the blocks handed to `format_code` must be exactly these
+     instances, and the lexical machine's reading of the instances is compared with the harness's
+     own C lexers and with `nm`.
+ (c) Search on the real `ffcx` entry point: fixed and seeded GENERATED .ufl files (elements × cells ×
+     integrals × coefficient / constant / form / expression names × file names with unusual
+     characters × -n/-o/-i × scalar types × $PWD json) -> ffcx.main.main -> <stem>.h/.c;
+     stand-alone compile against ufcx.h, `nm` symbols ⊇ header externs, aliases present (expected
+     names computed from the generator's own bookkeeping and the file stem), kernels bitwise equal
+     to the JIT path, numba output imported and its aliases / descriptors compared; every
+     option-source combination takes effect with the documented precedence.
 """
 import ast
+import contextlib
 import json
 import os
 import random
@@ -26,6 +40,7 @@ from pathlib import Path
 import numpy as np
 
 from .. import extract_names as X
+from .. import extract_templates as T
 from .. import lean
 
 THEOREMS = [
@@ -35,18 +50,31 @@ THEOREMS = [
     "Ffcx.Cli.cli_only_given_generated",
     "Ffcx.Cli.cli_only_given",
     "Ffcx.Cli.cli_not_given_falls_through",
-    "Ffcx.Cli.decl_defined",
+    "Ffcx.Cli.Tpl.symRun_sound",
+    "Ffcx.Cli.decl_defined_pair",
+    "Ffcx.Cli.templates_pairOk",
+    "Ffcx.Cli.decl_defined_templates",
+    "Ffcx.Cli.source_defines_declared",
+    "Ffcx.Cli.format_code_templates",
+    "Ffcx.Cli.cli_header_source_consistent",
+    "Ffcx.Cli.decl_defined_probes",
     "Ffcx.Cli.format_code_concat",
+    "Ffcx.Cli.format_code_ragged",
+    "Ffcx.Cli.format_code_no_default",
     "Ffcx.Cli.sanitise_ident",
     "Ffcx.Cli.cli_alias_valid",
 ]
 
 LEAN_FILES = [
     lean.LEAN / "FfcxProofs" / "Lemmas" / "Names.lean",
+    lean.LEAN / "FfcxProofs" / "Lemmas" / "CliTemplates.lean",
     lean.LEAN / "FfcxModel" / "Cli" / "Options.lean",
+    lean.LEAN / "FfcxModel" / "Cli" / "Templates.lean",
+    lean.LEAN / "FfcxModel" / "Cli" / "Driver.lean",
     lean.LEAN / "FfcxModel" / "Jit" / "Naming.lean",
     lean.LEAN / "FfcxModel" / "Generated" / "Options.lean",
     lean.LEAN / "FfcxModel" / "Generated" / "Templates.lean",
+    lean.LEAN / "FfcxModel" / "Generated" / "TemplatePieces.lean",
     lean.LEAN / "DriverNames.lean",
 ]
 
@@ -284,21 +312,264 @@ def corr_main(chk, d, rng, n):
 
 
 def corr_format(chk, d, rng, n):
+    """format_code vs `formatCodeE`: rectangular inputs, and inputs on which Python raises IndexError
+    (a tuple shorter than the first tuple of file_pre, an empty file_pre) or silently truncates (longer tuples)."""
     import ffcx.formatting
     from ffcx.codegeneration.codegeneration import CodeBlocks
 
     def rs():
         return "".join(rng.choice("ab;\n{}# ") for _ in range(rng.randint(0, 5)))
 
-    for _ in range(n):
+    for it in range(n):
         w = rng.choice([1, 2, 2, 3])
+        shape = rng.choice(["rect", "rect", "short", "long", "mixed", "empty-pre", "zero-width"]) if it >= 4 else \
+            ["rect", "short", "empty-pre", "long"][it]
         blocks = [[tuple(rs() for _ in range(w)) for _ in range(1 if bi in (0, 4) else rng.randint(0, 3))] for bi in range(5)]
-        real = ffcx.formatting.format_code(CodeBlocks(*blocks))
+        if shape in ("short", "mixed"):
+            cand = [(bi, ti) for bi, b in enumerate(blocks) for ti in range(len(b)) if (bi, ti) != (0, 0)]
+            bi, ti = rng.choice(cand)
+            blocks[bi][ti] = blocks[bi][ti][: rng.randint(0, w - 1)]
+        if shape in ("long", "mixed"):
+            bi = rng.randrange(5)
+            if blocks[bi]:
+                ti = rng.randrange(len(blocks[bi]))
+                blocks[bi][ti] = blocks[bi][ti] + tuple(rs() for _ in range(rng.randint(1, 2)))
+        if shape == "empty-pre":
+            blocks[0] = []
+        if shape == "zero-width":
+            blocks[0] = [()]
+            for b in blocks[1:]:
+                if b and rng.random() < 0.5:
+                    b[0] = ()
+        try:
+            real = ("ok", list(ffcx.formatting.format_code(CodeBlocks(*blocks))))
+        except IndexError:
+            real = ("indexerror", None)
         req = "(formatcode " + " ".join("(" + " ".join("(" + " ".join(U(s) for s in t) + ")" for t in b) + ")" for b in blocks) + ")"
-        got = [DEC(x) for x in d.ask(req)]
-        chk.case("format-code", key=f"{w}:{[len(b) for b in blocks]}")
-        if got != list(real):
-            chk.disagree("format_code", {"blocks": blocks, "model": got, "impl": list(real)})
+        r = d.ask(req)
+        got = ("ok", [DEC(x) for x in r[1:]]) if r and r[0] == "ok" else ("indexerror", None) if r == ["indexerror"] else ("?", r)
+        chk.case("format-code", key=f"{shape}:{real[0]}:{w}:{[[len(t) for t in b] for b in blocks]}")
+        if got != real:
+            chk.disagree("format_code", {"blocks": blocks, "model": got, "impl": real})
+
+
+# ------------------------------------------------------------------------------ (b') templates
+def _fill_sexp(filling):
+    return "(" + " ".join(f"({U(h)} {U(v)})" for h, v in filling.items()) + ")"
+
+
+def _ask_tpl(d, key, filling):
+    """driver `tpl` -> dict(inst, failed, items, end) or None (unknown template)."""
+    lang, kind, attr = key
+    r = d.ask(f"(tpl {U(lang)} {U(kind)} {U(attr)} {_fill_sexp(filling)})")
+    if r == ["unknown"] or not isinstance(r, list):
+        return None
+    r = {x[0]: x[1:] for x in r}
+    return {
+        "inst": DEC(r["inst"][0]),
+        "failed": [[x[0], DEC(x[1]), *x[2:]] for x in r["failed"]],
+        "items": [(DEC(h), chr(int(c))) for h, c in r["items"]],
+        "end": r["end"],
+    }
+
+
+def corr_templates_static(chk, d, rng, tdata, n):
+    """The regenerated tables vs the real template strings: holes = common.template_keys, and
+    `Tpl.inst` = `str.format_map` on random fillings (every template of both backends)."""
+    from ffcx.codegeneration.common import template_keys
+
+    for msg in tdata["problems"]:
+        chk.disagree("template table", {"problem": msg})
+    strs = T.template_strings()
+    alpha = "ab_X9 \n\t{}/*\"'\\;#=é"
+    for (lang, kind, attr), tstr in sorted(strs.items()):
+        r = d.ask(f"(tplholes {U(lang)} {U(kind)} {U(attr)})")
+        got = None if r == ["unknown"] else [DEC(x) for x in r]
+        chk.case("template-holes", key=f"{lang}:{kind}:{attr}:{len(got or [])}")
+        if got is None or set(got) != set(template_keys(tstr)):
+            chk.disagree("template holes", {"template": [lang, kind, attr], "model": got, "impl": sorted(template_keys(tstr))})
+            continue
+        for _ in range(n):
+            fill = {h: "".join(rng.choice(alpha) for _ in range(rng.randint(0, 6))) for h in set(got)}
+            real = tstr.format_map(fill)
+            m = _ask_tpl(d, (lang, kind, attr), fill)
+            chk.case("template-format", key=None)
+            if m is None or m["inst"] != real:
+                chk.disagree("template instance (random filling)", {"template": [lang, kind, attr], "filling": fill,
+                                                                     "model": m and m["inst"][:300], "impl": real[:300]})
+                break
+
+
+def corr_obligations(chk, d):
+    """The obligation evaluation of the driver must not be vacuous: for every C template, the neutral
+    filling (identifiers in identifier holes, everything else empty) satisfies all obligations, and a
+    filling crafted to violate ONE obligation is reported with exactly that obligation."""
+    bad_for = {"ident": "a-b", "noNewline": "x\ny", "neutral": "/* open", "lines": "int z"}
+    for (lang, kind, attr) in sorted(T.template_strings()):
+        if lang != "C":
+            continue
+        obs = d.ask(f"(tplobs {U(lang)} {U(kind)} {U(attr)})")
+        if obs == ["stuck"] or obs == ["unknown"]:
+            chk.disagree("template obligations", {"template": [lang, kind, attr], "reply": obs})
+            continue
+        obs = [(o[0], DEC(o[1])) for o in obs]
+        holes = [DEC(x) for x in d.ask(f"(tplholes {U(lang)} {U(kind)} {U(attr)})")]
+        ident_holes = {h for k, h in obs if k == "ident"}
+        base = {h: ("obj_1" if h in ident_holes else "") for h in holes}
+        m = _ask_tpl(d, (lang, kind, attr), base)
+        chk.case("obligations", key=f"{kind}:{attr}:base:{len(obs)}")
+        if m is None or m["failed"]:
+            chk.disagree("neutral filling violates an obligation", {"template": [lang, kind, attr], "failed": m and m["failed"]})
+        seen = set()
+        for k, h in obs:
+            if (k, h) in seen:
+                continue
+            seen.add((k, h))
+            m = _ask_tpl(d, (lang, kind, attr), dict(base, **{h: bad_for[k]}))
+            got = {(f[0], f[1]) for f in (m["failed"] if m else [])}
+            chk.case("obligations", key=f"{kind}:{attr}:{k}:{h}")
+            if (k, h) not in got:
+                chk.disagree("a filling crafted to violate an obligation is not reported", {"template": [lang, kind, attr], "obligation": [k, h],
+                                                                                            "filling": bad_for[k], "failed": sorted(got)})
+
+
+_GROUPS = [
+    ("file_pre", "file", "declaration_pre", "implementation_pre"),
+    ("integrals", "integral", "declaration", "factory"),
+    ("forms", "form", "declaration", "factory"),
+    ("expressions", "expression", "declaration", "factory"),
+    ("file_post", "file", "declaration_post", "implementation_post"),
+]
+
+
+def _last_word(head):
+    w = head.replace("*", " ").split()
+    return w[-1] if w else ""
+
+
+def tie_run(chk, d, label, lang, log, code_blocks, code, payload):
+    """One real run: recorded template instantiations vs the model, the blocks handed to format_code,
+    and the files it returned. Returns (declared names, defined names) read by the Lean machine (C)."""
+    by_key = {}
+    for rec in log:
+        by_key.setdefault(rec["template"], []).append(rec)
+    declared_all, defined_all, impl_items_all = [], [], []
+    for group, kind, dattr, iattr in _GROUPS:
+        tuples = list(getattr(code_blocks, group))
+        if lang == "numba" and group == "file_post":
+            # numba/file.py returns the literal ("",) here, not a template instance
+            if [tuple(t) for t in tuples] != [("",)]:
+                chk.disagree("numba file_post block", {"run": label, "blocks": [list(t) for t in tuples][:3], **payload})
+            continue
+        if lang == "C":
+            drecs, irecs = by_key.get((lang, kind, dattr), []), by_key.get((lang, kind, iattr), [])
+        else:
+            drecs, irecs = None, by_key.get((lang, kind, "factory"), [])
+            if group == "file_pre":
+                irecs = irecs[:1]
+        if len(irecs) != len(tuples) or (drecs is not None and len(drecs) != len(tuples)):
+            chk.disagree("blocks vs template instantiations", {"run": label, "group": group, "blocks": len(tuples),
+                                                               "recorded": [len(drecs or []), len(irecs)], **payload})
+            continue
+        for pos, tup in enumerate(tuples):
+            recs = [irecs[pos]] if drecs is None else [drecs[pos], irecs[pos]]
+            if [r["text"] for r in recs] != list(tup):
+                chk.disagree("a generator returns something else than its template instances",
+                             {"run": label, "group": group, "pos": pos, **payload})
+                continue
+            models = []
+            for rec in recs:
+                m = _ask_tpl(d, rec["template"], rec["filling"])
+                models.append(m)
+                nonempty = sum(1 for v in rec["filling"].values() if v)
+                chk.case("template-instance", key=f"{lang}:{kind}:{rec['template'][2]}:{nonempty}:{len(rec['text']) // 2000}")
+                if m is None or m["inst"] != rec["text"]:
+                    chk.disagree("template instance (real filling)", {"run": label, "template": list(rec["template"]),
+                                                                      "model": m and m["inst"][:200], "impl": rec["text"][:200], **payload})
+                elif lang == "C" and m["failed"]:
+                    chk.disagree("a real filling violates an obligation of decl_defined_templates",
+                                 {"run": label, "template": list(rec["template"]), "failed": m["failed"],
+                                  "fillings": {f[1]: rec["filling"].get(f[1], "")[:300] for f in m["failed"]}, **payload})
+            if lang != "C" or any(m is None for m in models):
+                continue
+            dm, im = models
+            # declaration and implementation must be filled consistently (the theorem has ONE filling)
+            shared = set(recs[0]["filling"]) & set(recs[1]["filling"])
+            diff = sorted(h for h in shared if recs[0]["filling"][h] != recs[1]["filling"][h])
+            if diff:
+                viol_once(chk, f"cli:decl-impl-filling-differs:{kind}", f"the declaration and the implementation of a {kind} block are "
+                          f"instantiated with different values for {diff}",
+                          dict(payload, run=label, declaration={h: recs[0]["filling"][h] for h in diff},
+                               implementation={h: recs[1]["filling"][h] for h in diff}))
+            decl = [h[len("extern "):] for h, t in dm["items"] if t == ";" and h.startswith("extern ")]
+            defs = [h for h, t in im["items"] if t == "="]
+            missing = [x for x in decl if x + " " not in defs]
+            chk.case("template-decl-defined", key=f"{kind}:{len(decl)}")
+            if (missing and not diff) or im["end"] != ["code", "0", "true"]:
+                # contradicts decl_defined_templates unless the tables / the driver are out of step
+                chk.disagree("declared names of a real declaration instance are not defined by the implementation instance",
+                             {"run": label, "group": group, "pos": pos, "missing": missing, "end": im["end"], **payload})
+            names = [_last_word(x) for x in decl]
+            if sorted(names) != sorted(X.c_declared(tup[0])):
+                chk.disagree("Lean lexical machine vs harness lexer (declarations)",
+                             {"run": label, "model": names, "harness": X.c_declared(tup[0]), **payload})
+            pydefs = [nm_ for nm_, st, _ in X.c_defined(tup[1]) if not st]
+            mdefs = [_last_word(h) for h, t in im["items"] if t in "=([" and not h.startswith(("static ", "extern "))]
+            if sorted(set(mdefs)) != sorted(set(pydefs)):
+                chk.disagree("Lean lexical machine vs harness lexer (definitions)",
+                             {"run": label, "model": mdefs, "harness": pydefs, **payload})
+            declared_all += names
+            defined_all += [_last_word(h) for h in defs if not h.startswith("static ")]
+            impl_items_all += im["items"]
+    # format_code: column j of the result is the concatenation of column j of all blocks, in block order
+    ncol = 2 if lang == "C" else 1
+    for j in range(ncol):
+        want = "".join(t[j] for group, *_ in _GROUPS for t in getattr(code_blocks, group))
+        if code is None or len(code) != ncol or code[j] != want:
+            chk.disagree("format_code on the real blocks", {"run": label, "column": j, **payload})
+    if lang == "C" and code is not None and len(code) == 2 and len(code[1]) < 600_000:
+        r = d.ask(f"(citems {U(code[1])})")
+        r = {x[0]: x[1:] for x in r}
+        whole = [(DEC(h), chr(int(c))) for h, c in r["items"]]
+        chk.case("source-items", key=f"{len(whole)}")
+        if whole != impl_items_all or r["end"] != ["code", "0", "true"]:
+            chk.disagree("items of the whole source file vs items of its blocks (items_flatten_closed)",
+                         {"run": label, "whole": len(whole), "blocks": len(impl_items_all), "end": r["end"], **payload})
+    return declared_all, defined_all
+
+
+@contextlib.contextmanager
+def capture_format_code():
+    """Record the CodeBlocks handed to formatting.format_code by compiler.compile_ufl_objects and what it returns."""
+    import ffcx.compiler
+
+    seen = []
+    orig = ffcx.compiler.format_code
+
+    def wrapped(code_blocks):
+        out = orig(code_blocks)
+        seen.append((code_blocks, list(out)))
+        return out
+
+    ffcx.compiler.format_code = wrapped
+    try:
+        yield seen
+    finally:
+        ffcx.compiler.format_code = orig
+
+
+def corr_templates_probes(chk, d):
+    """The probe objects of extract_names × both backends through the real compiler, recorded."""
+    import ffcx.compiler
+    from ffcx.options import FFCX_DEFAULT_OPTIONS
+
+    for lang in ("C", "numba"):
+        for pname, objs, onames, prefix in X.probes():
+            opts = {k: v[1] for k, v in FFCX_DEFAULT_OPTIONS.items()}
+            opts["language"] = lang
+            with T.Recorder() as log, capture_format_code() as seen:
+                code, _suffixes = ffcx.compiler.compile_ufl_objects(list(objs), options=opts, object_names=onames, namespace=prefix)
+            tie_run(chk, d, f"probe:{lang}:{pname}", lang, log, seen[0][0], list(code), {"probe": pname, "language": lang})
 
 
 # ------------------------------------------------------------------------------ (c) search
@@ -441,7 +712,7 @@ def _call(ffi, fn, st, A, w, c, x):
     return A
 
 
-def _compare_kernels(chk, label, stem, prefix, ufd, jitres, so_path, st, rng, payload):
+def _compare_kernels(chk, label, stem, prefix, ufd, jitres, so_path, st, rng, payload, info=None):
     """dlopen the stand-alone build, reach the objects through their aliases, compare with JIT bitwise."""
     import cffi
     import ffcx.codegeneration.jit as jit
@@ -482,6 +753,8 @@ def _compare_kernels(chk, label, stem, prefix, ufd, jitres, so_path, st, rng, pa
             want_k = [names.get(id(cc), None) for cc in uform.constants()]
             got_k = [ffi.string(sf.constant_name_map[k]).decode() for k in range(sf.num_constants)]
             chk.case("name-maps", key=f"{label}:{n}:{got_c}:{got_k}")
+            if info is not None:
+                info[n] = (sf.rank, sf.num_coefficients, sf.num_constants, got_c, got_k)
             if any(w is not None and w != g for w, g in zip(want_c, got_c)) or len(want_c) != len(got_c):
                 chk.violation(key=f"cli:coefficient-name-map:{label}", what=f"coefficient_name_map {got_c} does not name the coefficients at original_coefficient_positions ({want_c})",
                               payload=dict(payload, alias=n, got=got_c, expected=want_c))
@@ -528,105 +801,329 @@ def _compare_kernels(chk, label, stem, prefix, ufd, jitres, so_path, st, rng, pa
     return ncmp
 
 
-def search_files(chk, rng, thorough):
-    """Real `ffcx` runs on generated UFL files."""
-    import ffcx.main
+# ---- seeded grammar of UFL files --------------------------------------------------------------
+_G_CELLS = [("interval", 1), ("triangle", 2), ("triangle", 2), ("quadrilateral", 2), ("tetrahedron", 3), ("hexahedron", 3)]
+_G_STEMS = ["poisson", "my-form.v2", "2d case", "Ünï_code", "a+b=c", "x__y", "UPPER.lower", "trailing_", "9", "élan vital!",
+            "form", "main", "-x"]
+_G_DIRS = ["", "", "", "sub dir", "d.1", "-dash"]
+_G_COEF = ["f", "g", "kappa", "u_0", "Gamma9", "_w", "rho1", "ünï", "λ"]
+_G_CONST = ["c", "k", "alpha", "beta_2", "_C", "µ"]
+_G_FORM = ["a_1", "Form9", "_b", "mass", "stiff", "J2", "a", "L", "M", "F", "J"]
+_G_EXPR = ["e", "flux", "expr_2", "_q", "E"]
+_G_NS = ["myns", "NS_2", "_p", "x9"]
+_G_OUT = ["outstem", "o.u.t", "out-2", "Out_3"]
 
+
+def gen_ufl(rng, idx):
+    """One UFL file from the grammar. Returns dict(label, relpath, text, extra (argv), jit_opts, pwd_json,
+    forms = [name | None], exprs = [name | None]) — the names are the generator's own bookkeeping."""
+    cell, tdim = rng.choice(_G_CELLS)
+    simplex = cell in ("triangle", "tetrahedron")
+    fams = ["P1", "P1", "P2", "DP1", "vP1"] + (["RT1", "TH"] if cell == "triangle" else []) + (["N1"] if cell == "tetrahedron" else [])
+    if cell == "hexahedron":
+        fams = ["P1", "DP1"]
+    fam = rng.choice(fams)
+    L = ["import basix.ufl", "import numpy as np",
+         "from ufl import (Coefficient, Constant, FunctionSpace, Mesh, SpatialCoordinate, TestFunction, TestFunctions,",
+         "                 TrialFunction, TrialFunctions, avg, div, dS, ds, dx, grad, inner, jump)",
+         f'domain = Mesh(basix.ufl.element("Lagrange", "{cell}", 1, shape=({tdim},)))']
+    vector = fam in ("vP1", "RT1", "N1")
+    if fam == "P1":
+        L.append(f'element = basix.ufl.element("Lagrange", "{cell}", 1)')
+    elif fam == "P2":
+        L.append(f'element = basix.ufl.element("Lagrange", "{cell}", 2)')
+    elif fam == "DP1":
+        L.append(f'element = basix.ufl.element("Lagrange", "{cell}", 1, discontinuous=True)')
+    elif fam == "vP1":
+        L.append(f'element = basix.ufl.element("Lagrange", "{cell}", 1, shape=({tdim},))')
+    elif fam == "RT1":
+        L.append(f'element = basix.ufl.element("RT", "{cell}", 1)')
+    elif fam == "N1":
+        L.append(f'element = basix.ufl.element("N1curl", "{cell}", 1)')
+    else:  # Taylor-Hood
+        L.append(f'element = basix.ufl.mixed_element([basix.ufl.element("Lagrange", "{cell}", 2, shape=({tdim},)), '
+                 f'basix.ufl.element("Lagrange", "{cell}", 1)])')
+    L.append(f'selement = basix.ufl.element("Lagrange", "{cell}", 1)')
+    L += ["space = FunctionSpace(domain, element)", "sspace = FunctionSpace(domain, selement)"]
+    ncoef, nconst = rng.randint(1, 3), rng.randint(0, 2)
+    coefs = rng.sample(_G_COEF, ncoef)
+    consts = rng.sample(_G_CONST, nconst)
+    for nme in coefs:
+        L.append(f"{nme} = Coefficient(sspace)")
+    for nme in consts:
+        L.append(f"{nme} = Constant(domain)")
+    f0, f1 = coefs[0], coefs[-1]
+    c0 = consts[0] if consts else "2.5"
+    if fam == "TH":
+        L += ["(u, p) = TrialFunctions(space)", "(v, q) = TestFunctions(space)"]
+        bil = [f"(inner(grad(u), grad(v)) - inner(p, div(v)) + inner(div(u), q)) * dx",
+               f"{c0} * inner({f0} * u, v) * dx + inner(p, q) * ds"]
+        lin = [f"inner({f0}, q) * dx", f"{c0} * inner({f1} * {f0}, q) * ds"]
+    elif vector:
+        L += ["u = TrialFunction(space)", "v = TestFunction(space)"]
+        bil = ["inner(u, v) * dx", f"{c0} * inner({f0} * u, v) * dx + inner(u, v) * ds",
+               "inner(div(u), div(v)) * dx" if fam != "N1" else "inner(u, v) * dx(3)"]
+        lin = [f"inner({f0} * grad({f1}), v) * dx", f"{c0} * inner(grad({f0}), v) * ds(2)"]
+    else:
+        L += ["u = TrialFunction(space)", "v = TestFunction(space)"]
+        bil = ["inner(u, v) * dx", "inner(grad(u), grad(v)) * dx", f"{c0} * inner({f0} * u, v) * dx",
+               "inner(u, v) * ds(4)", "inner(jump(u), jump(v)) * dS",
+               "inner(grad(u), grad(v)) * dx + inner(u, v) * ds", "inner(u, v) * dx(1) + 2 * inner(u, v) * dx(2)",
+               f"inner(avg({f0}) * jump(u), jump(v)) * dS + inner(u, v) * dx"]
+        lin = [f"inner({f0}, v) * dx", f"{c0} * inner({f1}, v) * ds", f"inner({f0} * {f1}, v) * dx(degree=2)",
+               f"inner({f0}, v) * dx + inner({f1}, v) * ds(1) + inner({f1}, v) * ds(7)"]
+    fun = [f"{f0} * dx", f"{c0} * {f0} * {f1} * ds", f"inner(grad({f0}), grad({f1})) * dx", f"jump({f0}) * jump({f1}) * dS + {f0} * dx"]
+    nforms = rng.choice([0, 1, 1, 2, 2, 3])
+    nexprs = rng.choice([0, 0, 1, 2]) if nforms else rng.choice([1, 2])
+    if cell == "hexahedron":
+        nforms, nexprs = min(nforms, 1) or 1, min(nexprs, 1)
+    form_exprs = [rng.choice(rng.choice([bil, bil, lin, fun])) for _ in range(nforms)]
+    forms = []
+    if nforms and rng.random() < 0.35:
+        # default export: the names a, L, M (then F, J) without a `forms` list
+        order = ["a", "L", "M"]
+        pick = sorted(rng.sample(range(3), min(nforms, 3)))
+        names = [order[k] for k in pick]
+        if ("a" not in names or "L" not in names) and len(names) < nforms + 1 and rng.random() < 0.5:
+            names.append("F")
+        names = names[:nforms] if len(names) >= nforms else names
+        form_exprs = form_exprs[: len(names)]
+        for nme, ex in zip(names, form_exprs):
+            L.append(f"{nme} = {ex}")
+        forms = list(names)
+    elif nforms:
+        names = rng.sample(_G_FORM, nforms)
+        items = []
+        for nme, ex in zip(names, form_exprs):
+            if rng.random() < 0.2:
+                items.append(ex)          # an unnamed form written in place
+                forms.append(None)
+            else:
+                L.append(f"{nme} = {ex}")
+                items.append(nme)
+                forms.append(nme)
+        L.append("forms = [" + ", ".join(items) + "]")
+    else:
+        L.append("forms = []")
+    exprs = []
+    if nexprs:
+        pts = [[round(0.1 + 0.13 * (k + 1) * (dd + 1) / (tdim + 1), 4) for dd in range(tdim)] for k in range(rng.randint(1, 3))]
+        if simplex:
+            pts = [[x / (tdim + 0.5) for x in pnt] for pnt in pts]
+        L.append(f"points = np.array({pts!r})")
+        L.append("x = SpatialCoordinate(domain)")
+        pool = [f"{c0} * {f0}", f"grad({f0})", f"{f0}**2 + x[0]", f"{c0} * grad({f0} * {f1})", f"x[0] * {f1}"]
+        enames = rng.sample(_G_EXPR, nexprs)
+        items = []
+        for nme, ex in zip(enames, rng.sample(pool, nexprs)):
+            if rng.random() < 0.25:
+                items.append(f"({ex}, points)")
+                exprs.append(None)
+            else:
+                L.append(f"{nme} = {ex}")
+                items.append(f"({nme}, points)")
+                exprs.append(nme)
+        L.append("expressions = [" + ", ".join(items) + "]")
+    if rng.random() < 0.3:
+        L.append("elements = [element]")
+    extra, jit_opts, pwd_json = [], {}, None
+    r = rng.random()
+    if cell != "hexahedron" and fam != "TH":
+        if r < 0.15:
+            extra += ["--scalar_type", "float32"]
+            jit_opts["scalar_type"] = "float32"
+        elif r < 0.30:
+            extra += ["--scalar_type", "complex128"]
+            jit_opts["scalar_type"] = "complex128"
+        elif r < 0.40:
+            pwd_json = {"scalar_type": "float32"}
+            jit_opts["scalar_type"] = "float32"
+    r = rng.random()
+    if r < 0.12:
+        extra += ["-n", rng.choice(_G_NS)]
+    elif r < 0.24:
+        extra += ["-o", rng.choice(_G_OUT)]
+    elif r < 0.36:
+        extra += ["-n", rng.choice(_G_NS), "-o", rng.choice(_G_OUT)]
+    dname = rng.choice(_G_DIRS)
+    stem = rng.choice(_G_STEMS)
+    relpath = (dname + "/" if dname else "") + stem + rng.choice([".ufl", ".ufl", ".py", ".v2.ufl"])
+    return {"label": f"gen{idx}:{cell}:{fam}:{len(forms)}f{len(exprs)}e", "relpath": relpath, "text": "\n".join(L) + "\n",
+            "extra": extra, "jit_opts": jit_opts, "pwd_json": pwd_json, "forms": forms, "exprs": exprs}
+
+
+def _own_sanitise(relpath):
+    """The harness's own reading of main.sanitise_filename (independent of FFCx and of the Lean model)."""
+    return re.sub(r"[^A-Za-z0-9_]+", "_", Path(relpath).stem)
+
+
+def _check_numba(chk, label, outdir, stem, prefix, want_forms, want_exprs, c_lib_info, payload):
+    """<stem>_numba.py: valid Python, importable, aliases present, descriptors agree with the C output."""
+    from . import c18
+
+    pyf = outdir / f"{stem}_numba.py"
+    chk.case("numba-output", key=label)
+    if not pyf.exists():
+        chk.violation(key=f"cli:files-missing:numba:{label}", what="ffcx --language numba did not write <stem>_numba.py", payload=payload)
+        return
+    src = pyf.read_text()
+    try:
+        ns = c18.load_numba_module(src)
+    except SyntaxError as ex:
+        chk.violation(key=f"cli:numba-not-python:{label}", what="numba output is not valid Python", payload=dict(payload, error=repr(ex)))
+        return
+    except Exception as ex:
+        chk.violation(key=f"cli:numba-import-failed:{label}", what=f"importing the numba output raised {type(ex).__name__}",
+                      payload=dict(payload, error=repr(ex)[:400]))
+        return
+    missing = [n for n in want_forms + want_exprs if n not in ns]
+    if missing:
+        chk.violation(key=f"cli:alias-missing:numba:{label}", what="form_<prefix>_<name> / expression_<prefix>_<name> alias missing from the numba module",
+                      payload=dict(payload, missing=missing))
+        return
+    for n in want_forms:
+        cinfo = c_lib_info.get(n)
+        o = ns[n]
+        got = (o.rank, o.num_coefficients, o.num_constants, list(o.coefficient_name_map or []), list(o.constant_name_map or []))
+        chk.case("numba-descriptor", key=f"{label}:{n}")
+        if cinfo is not None and got != cinfo:
+            chk.violation(key=f"cli:numba-descriptor-differs:{label}", what="form descriptor of the numba output differs from the C output of the same file",
+                          payload=dict(payload, alias=n, numba=repr(got), C=repr(cinfo)))
+
+
+def run_cli_case(chk, d, rng, case, cflags, numba):
+    """One real `ffcx` run + all checks on its output."""
+    import ffcx.main
+    import ufl
+
+    label, relpath, text, extra, jit_opts = case["label"], case["relpath"], case["text"], case["extra"], case["jit_opts"]
+    with X.hermetic_options(None, case.get("pwd_json")) as (_xdg, cwd):
+        tmp = Path(cwd)
+        src = tmp / "in" / relpath
+        src.parent.mkdir(parents=True, exist_ok=True)
+        src.write_text(text)
+        outdir = tmp / "out"
+        outdir.mkdir()
+        argv = [*extra, "-d", str(outdir)]
+        if "-n" in extra or "-o" in extra:
+            argv += ["-i", str(src)]
+        else:
+            argv += [str(src)]
+        payload = {"ufl_file": relpath, "ufl_source": text, "argv": argv, "pwd_json": case.get("pwd_json")}
+        try:
+            with T.Recorder() as log, capture_format_code() as seen:
+                rc = ffcx.main.main(argv)
+        except Exception as ex:
+            chk.violation(key=f"cli:main-raised:{label}", what=f"ffcx.main.main raised {type(ex).__name__}", payload=dict(payload, error=repr(ex)[:500]))
+            return
+        chk.programs += 1
+        stem = extra[extra.index("-o") + 1] if "-o" in extra else _own_sanitise(relpath)
+        prefix = extra[extra.index("-n") + 1] if "-n" in extra else _own_sanitise(relpath)
+        h, c = outdir / f"{stem}.h", outdir / f"{stem}.c"
+        chk.case("cli-run", key=label)
+        if rc != 0 or not h.exists() or not c.exists():
+            chk.violation(key=f"cli:files-missing:{label}", what="ffcx did not write <stem>.h and <stem>.c", payload=dict(payload, listing=os.listdir(outdir)))
+            return
+        # templates: the recorded instantiations of this run vs the model; files on disk = what format_code returned
+        m_declared = []
+        if len(seen) == 1:
+            m_declared, _m_defined = tie_run(chk, d, f"cli:{label}", "C", log, seen[0][0], seen[0][1], {"ufl_file": relpath, "argv": argv})
+            if [h.read_text(), c.read_text()] != seen[0][1]:
+                chk.disagree("files written vs format_code result", {"run": label})
+        else:
+            chk.disagree("format_code calls per file", {"run": label, "calls": len(seen)})
+        # stand-alone compile against ufcx.h
+        rcc, log_c = _run([_cc(), "-c", "-std=c17", "-Wall", "-Werror=implicit-function-declaration", f"-I{INCLUDE}", c.name, "-o", "obj.o"], outdir)
+        if rcc != 0:
+            chk.violation(key=f"cli:compile-failed:{label}", what="generated source does not compile stand-alone against ufcx.h", payload=dict(payload, log=log_c[-1500:]))
+            return
+        # the header must be self-contained too
+        (outdir / "hdr_only.c").write_text(f'#include "{stem}.h"\nint main(void) {{ return 0; }}\n')
+        rch, logh = _run([_cc(), "-c", "-std=c17", f"-I{INCLUDE}", "hdr_only.c", "-o", "hdr_only.o"], outdir)
+        if rch != 0:
+            chk.violation(key=f"cli:header-not-selfcontained:{label}", what="generated header does not compile on its own", payload=dict(payload, log=logh[-1500:]))
+        _, nm = _run(["nm", "--defined-only", "-g", "obj.o"], outdir)
+        defined = {l.split()[-1] for l in nm.splitlines() if len(l.split()) >= 3}
+        declared = X.c_declared(h.read_text())
+        missing = [n for n in declared if n not in defined]
+        chk.case("decl-defined", key=f"{label}:{len(declared)}")
+        if missing:
+            chk.violation(key=f"cli:declared-not-defined:{label}", what="names declared extern in the header are not defined in the object file",
+                          payload=dict(payload, missing=missing))
+        if m_declared and sorted(m_declared) != sorted(declared):
+            chk.disagree("declared names: Lean machine on the declaration instances vs harness lexer on the header file",
+                         {"run": label, "model": sorted(m_declared), "harness": sorted(declared)})
+        # aliases of named objects: expected names from the UFL file alone (ufl's loader) and, for generated
+        # files, from the generator's own bookkeeping
+        ufd = ufl.algorithms.load_ufl_file(str(src))
+        want_f = [f"form_{prefix}_{ufd.object_names.get(id(f), i)}" for i, f in enumerate(ufd.forms)]
+        want_e = [f"expression_{prefix}_{ufd.object_names.get(id(e[0]), i)}" for i, e in enumerate(ufd.expressions)]
+        if "forms" in case:
+            own_f = [f"form_{prefix}_{n if n is not None else i}" for i, n in enumerate(case["forms"])]
+            own_e = [f"expression_{prefix}_{n if n is not None else i}" for i, n in enumerate(case["exprs"])]
+            if (own_f, own_e) != (want_f, want_e):
+                chk.disagree("expected aliases: generator bookkeeping vs ufl loader", {"run": label, "own": own_f + own_e, "ufl": want_f + want_e, **payload})
+        want = want_f + want_e
+        noalias = [n for n in want if n not in defined or n not in declared]
+        chk.case("aliases", key=f"{label}:{want}")
+        if noalias:
+            chk.violation(key=f"cli:alias-missing:{label}", what="form_<prefix>_<name> / expression_<prefix>_<name> alias missing from header or object file",
+                          payload=dict(payload, missing=noalias, defined_sample=sorted(defined)[:10]))
+            return
+        # options printed in both files
+        eff = _header_options(h.read_text())
+        for k, v in jit_opts.items():
+            if eff.get(k) != v:
+                chk.violation(key=f"cli:option-ignored:{k}", what=f"option {k} given on the command line / in $PWD/ffcx_options.json is not the effective one",
+                              payload=dict(payload, effective=repr(eff)))
+        # kernels vs JIT, bitwise, same compiler flags as the JIT build
+        st = jit_opts.get("scalar_type", "float64")
+        rcs, logs = _run([_cc(), "-shared", "-fPIC", "-std=c17", *cflags, f"-I{INCLUDE}", c.name, "-o", "lib.so", "-lm"], outdir)
+        if rcs != 0:
+            chk.violation(key=f"cli:compile-failed:{label}", what="generated source does not link into a shared object", payload=dict(payload, log=logs[-1500:]))
+            return
+        ufd2, jitres = _jit_reference(src, jit_opts, tmp)
+        info = {}
+        _compare_kernels(chk, label, stem, prefix, ufd2, jitres, outdir / "lib.so", st, rng, payload, info)
+        if numba:
+            argvn = [a for a in argv]
+            argvn = ["--language", "numba", *argvn]
+            try:
+                with T.Recorder() as logn, capture_format_code() as seenn:
+                    ffcx.main.main(argvn)
+            except Exception as ex:
+                chk.violation(key=f"cli:main-raised:numba:{label}", what=f"ffcx.main.main --language numba raised {type(ex).__name__}",
+                              payload=dict(payload, error=repr(ex)[:500]))
+                return
+            if len(seenn) == 1:
+                tie_run(chk, d, f"cli:numba:{label}", "numba", logn, seenn[0][0], seenn[0][1], {"ufl_file": relpath, "argv": argvn})
+            _check_numba(chk, label, outdir, stem, prefix, want_f, want_e, info, dict(payload, argv=argvn))
+
+
+def search_files(chk, d, rng, thorough):
+    """Real `ffcx` runs on fixed and generated UFL files."""
     cases = [
-        ("poisson", "poisson.ufl", UFL_POISSON.format(deg=1), [], {}),
-        ("expr", "my-expr.v2.ufl", UFL_EXPR, ["--scalar_type", "float32"], {"scalar_type": "float32"}),
-        ("mixed", "sub dir/Mixed_3D.ufl", UFL_MIXED, [], {}),
-        ("deriv", "nonlinear.ufl", UFL_DERIV, [], {}),   # the Jacobian drops the first coefficient (`source`)
+        {"label": "poisson", "relpath": "poisson.ufl", "text": UFL_POISSON.format(deg=1), "extra": [], "jit_opts": {}},
+        {"label": "expr", "relpath": "my-expr.v2.ufl", "text": UFL_EXPR, "extra": ["--scalar_type", "float32"], "jit_opts": {"scalar_type": "float32"}},
+        {"label": "mixed", "relpath": "sub dir/Mixed_3D.ufl", "text": UFL_MIXED, "extra": [], "jit_opts": {}},
+        # the Jacobian drops the first coefficient (`source`)
+        {"label": "deriv", "relpath": "nonlinear.ufl", "text": UFL_DERIV, "extra": [], "jit_opts": {}},
     ]
     if thorough:
         cases += [
-            ("poisson2-c128", "p2.ufl", UFL_POISSON.format(deg=2), ["--scalar_type", "complex128"], {"scalar_type": "complex128"}),
-            ("poisson-ns", "poisson.ufl", UFL_POISSON.format(deg=1), ["-n", "myns", "-o", "outstem"], {}),
-            ("quad-tp-sf", "tp.ufl", UFL_QUAD_TP, ["--sum_factorization"], {"sum_factorization": True}),
+            {"label": "poisson2-c128", "relpath": "p2.ufl", "text": UFL_POISSON.format(deg=2), "extra": ["--scalar_type", "complex128"],
+             "jit_opts": {"scalar_type": "complex128"}},
+            {"label": "poisson-ns", "relpath": "poisson.ufl", "text": UFL_POISSON.format(deg=1), "extra": ["-n", "myns", "-o", "outstem"], "jit_opts": {}},
+            {"label": "quad-tp-sf", "relpath": "tp.ufl", "text": UFL_QUAD_TP, "extra": ["--sum_factorization"], "jit_opts": {"sum_factorization": True}},
         ]
+    ngen = 60 if thorough else 12
+    grng = random.Random(77000 + chk.seed)
+    gen = [gen_ufl(grng, i) for i in range(ngen)]
     cflags = [f for f in (sysconfig.get_config_var("CFLAGS") or "").split() if f]
-    for label, relpath, text, extra, jit_opts in cases:
-        with X.hermetic_options() as (_xdg, cwd):
-            tmp = Path(cwd)
-            src = tmp / relpath
-            src.parent.mkdir(parents=True, exist_ok=True)
-            src.write_text(text)
-            outdir = tmp / "out"
-            outdir.mkdir()
-            argv = [*extra, "-d", str(outdir)]
-            if "-n" in extra:
-                argv += ["-i", str(src)]
-            else:
-                argv += [str(src)]
-            payload = {"ufl_file": relpath, "ufl_source": text, "argv": argv}
-            try:
-                rc = ffcx.main.main(argv)
-            except Exception as ex:
-                chk.violation(key=f"cli:main-raised:{label}", what=f"ffcx.main.main raised {type(ex).__name__}", payload=dict(payload, error=repr(ex)[:500]))
-                continue
-            chk.programs += 1
-            stem = "outstem" if "-o" in extra else re.sub(r"[^A-Za-z0-9_]+", "_", Path(relpath).stem)
-            prefix = "myns" if "-n" in extra else stem
-            h, c = outdir / f"{stem}.h", outdir / f"{stem}.c"
-            chk.case("cli-run", key=label)
-            if rc != 0 or not h.exists() or not c.exists():
-                chk.violation(key=f"cli:files-missing:{label}", what="ffcx did not write <stem>.h and <stem>.c", payload=dict(payload, listing=os.listdir(outdir)))
-                continue
-            # stand-alone compile against ufcx.h
-            rcc, log = _run([_cc(), "-c", "-std=c17", "-Wall", "-Werror=implicit-function-declaration", f"-I{INCLUDE}", c.name, "-o", f"{stem}.o"], outdir)
-            if rcc != 0:
-                chk.violation(key=f"cli:compile-failed:{label}", what="generated source does not compile stand-alone against ufcx.h", payload=dict(payload, log=log[-1500:]))
-                continue
-            # the header must be self-contained too
-            (outdir / "hdr_only.c").write_text(f'#include "{stem}.h"\nint main(void) {{ return 0; }}\n')
-            rch, logh = _run([_cc(), "-c", "-std=c17", f"-I{INCLUDE}", "hdr_only.c", "-o", "hdr_only.o"], outdir)
-            if rch != 0:
-                chk.violation(key=f"cli:header-not-selfcontained:{label}", what="generated header does not compile on its own", payload=dict(payload, log=logh[-1500:]))
-            _, nm = _run(["nm", "--defined-only", "-g", f"{stem}.o"], outdir)
-            defined = {l.split()[-1] for l in nm.splitlines() if len(l.split()) >= 3}
-            declared = X.c_declared(h.read_text())
-            missing = [n for n in declared if n not in defined]
-            chk.case("decl-defined", key=f"{label}:{len(declared)}")
-            if missing:
-                chk.violation(key=f"cli:declared-not-defined:{label}", what="names declared extern in the header are not defined in the object file",
-                              payload=dict(payload, missing=missing))
-            # aliases of named objects
-            import ufl
-
-            ufd = ufl.algorithms.load_ufl_file(str(src))
-            want = [f"form_{prefix}_{ufd.object_names.get(id(f), i)}" for i, f in enumerate(ufd.forms)]
-            want += [f"expression_{prefix}_{ufd.object_names.get(id(e[0]), i)}" for i, e in enumerate(ufd.expressions)]
-            noalias = [n for n in want if n not in defined or n not in declared]
-            chk.case("aliases", key=f"{label}:{want}")
-            if noalias:
-                chk.violation(key=f"cli:alias-missing:{label}", what="form_<prefix>_<name> / expression_<prefix>_<name> alias missing from header or object file",
-                              payload=dict(payload, missing=noalias, defined_sample=sorted(defined)[:10]))
-            # options printed in both files
-            eff = _header_options(h.read_text())
-            for k, v in jit_opts.items():
-                if eff.get(k) != v:
-                    chk.violation(key=f"cli:option-ignored:{k}", what=f"option {k} given on the command line is not the effective one", payload=dict(payload, effective=repr(eff)))
-            # kernels vs JIT, bitwise, same compiler flags as the JIT build
-            st = jit_opts.get("scalar_type", "float64")
-            rcs, logs = _run([_cc(), "-shared", "-fPIC", "-std=c17", *cflags, f"-I{INCLUDE}", c.name, "-o", f"{stem}.so", "-lm"], outdir)
-            if rcs != 0:
-                chk.violation(key=f"cli:compile-failed:{label}", what="generated source does not link into a shared object", payload=dict(payload, log=logs[-1500:]))
-                continue
-            ufd2, jitres = _jit_reference(src, jit_opts, tmp)
-            _compare_kernels(chk, label, stem, prefix, ufd2, jitres, outdir / f"{stem}.so", st, rng, payload)
-            if thorough:
-                argvn = ["--language", "numba", "-d", str(outdir), str(src)] if "-n" not in extra else None
-                if argvn and "sum_factorization" not in jit_opts:
-                    ffcx.main.main(argvn)
-                    pyf = outdir / f"{stem}_numba.py"
-                    chk.case("numba-output", key=label)
-                    if not pyf.exists():
-                        chk.violation(key=f"cli:files-missing:numba:{label}", what="ffcx --language numba did not write <stem>_numba.py", payload=payload)
-                    else:
-                        try:
-                            compile(ast.parse(pyf.read_text()), str(pyf), "exec")
-                        except SyntaxError as ex:
-                            chk.violation(key=f"cli:numba-not-python:{label}", what="numba output is not valid Python", payload=dict(payload, error=repr(ex)))
+    for k, case in enumerate(cases + gen):
+        fixed = k < len(cases)
+        numba = (thorough and "sum_factorization" not in case["jit_opts"]) or (not fixed and k % 3 == 0) or case["label"] == "poisson"
+        run_cli_case(chk, d, rng, case, cflags, numba)
 
 
 def search_option_sources(chk, rng):
@@ -694,25 +1191,40 @@ def run(chk):
     thorough = chk.tier == "thorough"
     rng = random.Random(2000 + chk.seed)
     chk.rule = ("merge/cli/main-options: seeded random option sources (key = which keys each layer sets, only overlapping "
-                "layers count as non-trivial); sanitise: file names with characters outside [A-Za-z0-9_]; search: one key per "
-                "generated UFL file / kernel / option-source combination")
+                "layers count as non-trivial); sanitise: file names with characters outside [A-Za-z0-9_]; format-code: key = shape "
+                "class (rectangular / short / long / empty) and tuple lengths; template-instance: one key per (template, number of "
+                "non-empty holes, size class) of a REAL instantiation; search: one key per fixed or seeded generated UFL file "
+                "(cell × element × forms × expressions × names × options) / kernel / option-source combination")
     chk.trusted += [
         "argparse token handling and type= conversion are taken as given: the model starts from (dest, converted value) pairs",
         "harness/extract_names.py lexers (C top-level definitions, extern declarations), nm, the C compiler, cffi dlopen",
+        "decl_defined_templates reads C text with the lexical machine of FfcxModel/Cli/Templates.lean (comments, literals, # lines "
+        "as comments, brace depth, heads of top-level items): `DeclaredIn` / `DefinedIn` are ITS notions of an extern declaration and "
+        "of a definition with external linkage; they are compared with the harness lexers and with nm on every real block",
+        "extract_templates.Recorder (str subclasses in place of the template strings) reports the mapping the generator formats with",
         "json round trip of option files",
     ]
-    chk.assumptions += ["posix paths without trailing slash / dot components in the sanitise_filename correspondence"]
+    chk.assumptions += ["posix paths without trailing slash / dot components in the sanitise_filename correspondence",
+                        "decl_defined_templates: fillings respect the lexical obligations (`Respects`), checked on every real filling; "
+                        "form / expression names and -n namespaces in generated files are ASCII identifiers"]
     data = X.regenerate()
-    chk.notes["generated_changed"] = data["changed"]
+    tdata = T.regenerate()
+    chk.notes["generated_changed"] = data["changed"] + (["TemplatePieces.lean"] if tdata["changed"] else [])
     chk.notes["template_blocks"] = len(data["blocks"])
+    chk.notes["template_strings"] = len(tdata["entries"])
+    for msg in data.get("problems", []):
+        chk.disagree("probe table", {"problem": msg})
     chk.lean("FfcxProofs.C20", THEOREMS, extra_files=LEAN_FILES)
     with lean.Driver("driver_names") as d:
         corr_merge(chk, d, rng, 1500 if thorough else 150)
         corr_cli(chk, d, rng, 1500 if thorough else 200)
         corr_main(chk, d, rng, 600 if thorough else 80)
-        corr_format(chk, d, rng, 500 if thorough else 60)
-    search_option_sources(chk, rng)
-    search_json_end_to_end(chk)
-    search_files(chk, rng, thorough)
+        corr_format(chk, d, rng, 500 if thorough else 80)
+        corr_templates_static(chk, d, rng, tdata, 25 if thorough else 4)
+        corr_obligations(chk, d)
+        corr_templates_probes(chk, d)
+        search_option_sources(chk, rng)
+        search_json_end_to_end(chk)
+        search_files(chk, d, rng, thorough)
     if thorough:
         chk.leanchecker(["FfcxProofs.C20"])
